@@ -18,6 +18,16 @@ let handle line =
     (match subtle_new hash_o aes_o (kind_of kind hash salt) (unhex key) with
      | Ok p -> "ok|" ^ outs p (unhex input) (lens ls)
      | _ -> "rej")
+  | [_; "R"; hash; secret; salt; info; sizes] ->
+    (* the x/crypto hkdf reader AS CODED (model/HkdfCode.v over model/HmacCode.v); the streaming
+       hash is the accumulating instance over the oracle's one-shot hash *)
+    (match hash_of hash with
+     | None -> "BADCASE"
+     | Some h ->
+       let salt = if salt = "nil" then None else Some (unhex salt) in
+       let rd = new_code acc_init acc_write (hash_o h) (block_size h) (digest_size h) (unhex secret) salt (unhex info) in
+       let (_, outs) = rd_reads acc_init acc_write (hash_o h) true rd (List.map nat_of_int (lens sizes)) in
+       String.concat "," (List.map (function Some o -> hexs o | None -> "err") outs))
   | [_; "H"; hash; key; salt; info; ls] ->
     String.concat "," (List.map (fun n ->
       out_str (compute_hkdf hash_o (hash_of hash) (unhex key) (unhex salt) (unhex info) (nat_of_int n))) (lens ls))
